@@ -160,34 +160,18 @@ Definition chk_export_rfc4716 (c : bytes * option bytes * option bytes) : bool :
 (* openssh-key-v1 container with the real field layout of the non-SK key types: the private section
    is String(alg) followed by a fixed number of length-prefixed fields (strings and mpints) *)
 
-Definition kparams := (bytes * list bytes)%type.
+Definition kparams := krecord.
+Definition enc_fields (p : kparams) : bytes := enc_record p.
 
-Definition enc_fields (p : kparams) : bytes := sshstring (fst p) ++ concat (map sshstring (snd p)).
-
-Fixpoint get_strings (n : nat) (p : bytes) : option (list bytes * bytes) :=
-  match n with
-  | O => Some ([], p)
-  | S n' => match get_string p with
-            | Some (s, r) => match get_strings n' r with Some (l, r') => Some (s :: l, r') | None => None end
-            | None => None
-            end
-  end.
-
-Fixpoint field_count (table : list (bytes * Z)) (alg : bytes) : option Z :=
+(* table: algorithm name -> layout of its private record (true = string/mpint, false = one byte) *)
+Fixpoint layout_in (table : list (bytes * list bool)) (alg : bytes) : option (list bool) :=
   match table with
   | [] => None
-  | (a, n) :: r => if zlist_eqb a alg then Some n else field_count r alg
+  | (a, l) :: r => if zlist_eqb a alg then Some l else layout_in r alg
   end.
 
-Definition dec_fields (table : list (bytes * Z)) (p : bytes) : option (kparams * bytes) :=
-  match get_string p with
-  | Some (alg, r) =>
-      match field_count table alg with
-      | Some n => match get_strings (Z.to_nat n) r with Some (l, r') => Some ((alg, l), r') | None => None end
-      | None => None
-      end
-  | None => None
-  end.
+Definition dec_fields (table : list (bytes * list bool)) (p : bytes) : option (kparams * bytes) :=
+  dec_record (layout_in table) p.
 
 (* no cipher is available in this environment (bcrypt missing): the cipher parameters are dummies *)
 Definition no_cipher_known (_ : bytes) : bool := false.
@@ -200,7 +184,7 @@ Definition oerr_eqb (a b : oerr) : bool :=
   match a, b with OImportErr, OImportErr | OEncryptionErr, OEncryptionErr => true | _, _ => false end.
 
 (* observed: OOk (String(alg)+encode_ssh_private() of the imported key, comment) or the error class *)
-Definition chk_openssh_decode (c : list (bytes * Z) * bytes * option bytes * ores (bytes * bytes)) : bool :=
+Definition chk_openssh_decode (c : list (bytes * list bool) * bytes * option bytes * ores (bytes * bytes)) : bool :=
   let '(table, data, pass, got) := c in
   match openssh_decode kparams (dec_fields table) no_cipher_known dummy_kdf dummy_decrypt data pass, got with
   | OOk (p, cm), OOk (priv, cm') => zlist_eqb (enc_fields p) priv && zlist_eqb cm cm'
